@@ -2,6 +2,7 @@ package sim
 
 import (
 	"fmt"
+	"path"
 	"strings"
 
 	"github.com/hack-pad/hackpadfs"
@@ -77,22 +78,101 @@ func pathClass(p string, ref *snapshot) string {
 		}
 		return "empty-dir"
 	}
-	// missing: look at the nearest existing ancestor
-	parent := p
-	for {
-		i := strings.LastIndexByte(parent, '/')
-		if i < 0 {
-			return "missing"
+	// missing: look at the ancestors
+	parent := path.Dir(p)
+	if parent == "." {
+		return "missing"
+	}
+	if e, ok := ref.Entries[parent]; ok {
+		if e.Kind == "f" {
+			return "below-file"
 		}
-		parent = parent[:i]
-		if e, ok := ref.Entries[parent]; ok {
-			if e.Kind == "f" {
-				return "below-file"
-			}
-			if strings.Count(p, "/") > strings.Count(parent, "/")+1 {
-				return "missing-parent"
-			}
-			return "missing"
+		return "missing"
+	}
+	for a := path.Dir(parent); a != "."; a = path.Dir(a) {
+		if e, ok := ref.Entries[a]; ok && e.Kind == "f" {
+			return "below-file"
+		}
+	}
+	if e, ok := ref.Entries[path.Dir(parent)]; ok && e.Kind == "f" {
+		return "below-file"
+	}
+	return "missing-parent"
+}
+
+// diffRun applies one history to a SUT and to the os twin and judges every step (C01 oracle).
+type diffRun struct {
+	t       *T
+	kind    int
+	sut     hackpadfs.FS
+	ref     hackpadfs.FS
+	probe   []string
+	pins    pinTracker
+	refSnap *snapshot
+	g       *fsGen
+	muts    int
+	i       int
+}
+
+func newDiffRun(t *T, kind int, alpha []string) (*diffRun, func()) {
+	sut, _ := newSUT(t, kind)
+	ref, _, cleanup := osTwin(t)
+	d := &diffRun{t: t, kind: kind, sut: sut, ref: ref, probe: candidatePaths(alpha, 3), pins: pinTracker{}}
+	d.refSnap = takeSnapshot(ref, snapOpts{})
+	return d, cleanup
+}
+
+func isDirIn(s *snapshot, p string) bool {
+	if p == "." {
+		return true
+	}
+	e, ok := s.Entries[p]
+	return ok && e.Kind == "d"
+}
+
+// skip reports whether the op is outside the property or inside the region of an active known finding.
+func (d *diffRun) skip(o Op) bool {
+	if o.Kind == "Remove" || o.Kind == "RemoveAll" || o.Kind == "Rename" {
+		if o.P == "." || (o.Kind == "Rename" && o.Q == ".") {
+			return true // removing or renaming the root is outside C01
+		}
+	}
+	if o.Kind == "ReadFile" && isDirIn(d.refSnap, o.P) && d.t.Avoid("readfile-of-directory") {
+		return true
+	}
+	return false
+}
+
+func (d *diffRun) step(o Op) {
+	t := d.t
+	i := d.i
+	d.i++
+	sig := opSig(o, d.refSnap)
+	want := applyOp(d.ref, o)
+	got := applyOp(d.sut, o)
+	t.Logf("%d %s -> sut=%s os=%s", i, o, errClass(got.Err), errClass(want.Err))
+	if (got.Err == nil) != (want.Err == nil) {
+		t.Fail("outcome", "C01:outcome:"+sig+":os="+okFail(want.Err)+":sut="+okFail(got.Err),
+			fmt.Sprintf("step %d %s on %s: os: %v; sut: %v", i, o, sutName(d.kind), want.Err, got.Err))
+	}
+	if got.Err == nil && got.Data != want.Data {
+		t.Fail("data", "C01:data:"+sig, fmt.Sprintf("step %d %s on %s returned %q, os returned %q", i, o, sutName(d.kind), got.Data, want.Data))
+	}
+	d.pins.update(o, want.Err == nil)
+	if o.Mutating() {
+		pinned := map[string]int64(d.pins)
+		d.refSnap = takeSnapshot(d.ref, snapOpts{Pinned: pinned})
+		sutSnap := takeSnapshot(d.sut, snapOpts{Probe: d.probe, Pinned: pinned})
+		if d.refSnap.Text != sutSnap.Text {
+			t.Fail("tree", "C01:tree:"+sig+":os="+okFail(want.Err),
+				fmt.Sprintf("after step %d %s on %s the trees differ:\n%s", i, o, sutName(d.kind), diffText(sutSnap, d.refSnap, "sut", "os ")))
+		}
+		if d.g != nil {
+			d.g.observe(d.refSnap)
+		}
+		t.State(d.refSnap.Text)
+		if want.Err == nil {
+			d.muts++
 		}
 	}
 }
@@ -102,54 +182,65 @@ func runC01(t *T) {
 	c := t.C
 	kind := c.Draw(3)
 	defer beginTrial(t, true)()
-	sut, _ := newSUT(t, kind)
-	ref, _, cleanup := osTwin(t)
-	defer cleanup()
 	alpha := []string{"a", "b", "c"}
-	g := newFsGen(t, alpha, 3)
-	probe := candidatePaths(alpha, 3)
-	pins := pinTracker{}
-	refSnap := takeSnapshot(ref, snapOpts{})
+	d, cleanup := newDiffRun(t, kind, alpha)
+	defer cleanup()
+	d.g = newFsGen(t, alpha, 3)
 	n := 1 + c.Draw(24)
 	t.Logf("sut=%s steps=%d", sutName(kind), n)
-	mutations := 0
 	for i := 0; i < n; i++ {
-		o := g.next()
-		if o.Kind == "Remove" || o.Kind == "RemoveAll" || o.Kind == "Rename" {
-			if o.P == "." || (o.Kind == "Rename" && o.Q == ".") {
-				continue // removing or renaming the root is outside C01
-			}
+		o := d.g.next()
+		if d.skip(o) {
+			continue
 		}
-		sig := opSig(o, refSnap)
-		want := applyOp(ref, o)
-		got := applyOp(sut, o)
-		t.Logf("%d %s -> sut=%s os=%s", i, o, errClass(got.Err), errClass(want.Err))
-		if (got.Err == nil) != (want.Err == nil) {
-			t.Fail("outcome", "C01:outcome:"+sig+":os="+okFail(want.Err)+":sut="+okFail(got.Err),
-				fmt.Sprintf("step %d %s on %s: os: %v; sut: %v", i, o, sutName(kind), want.Err, got.Err))
-		}
-		if got.Err == nil && got.Data != want.Data {
-			t.Fail("data", "C01:data:"+sig, fmt.Sprintf("step %d %s on %s returned %q, os returned %q", i, o, sutName(kind), got.Data, want.Data))
-		}
-		pins.update(o, want.Err == nil)
-		if o.Mutating() {
-			pinned := map[string]int64(pins)
-			refSnap = takeSnapshot(ref, snapOpts{Pinned: pinned})
-			sutSnap := takeSnapshot(sut, snapOpts{Probe: probe, Pinned: pinned})
-			if refSnap.Text != sutSnap.Text {
-				t.Fail("tree", "C01:tree:"+sig+":os="+okFail(want.Err),
-					fmt.Sprintf("after step %d %s on %s the trees differ:\n%s", i, o, sutName(kind), diffText(sutSnap, refSnap, "sut", "os ")))
-			}
-			g.observe(refSnap)
-			t.State(refSnap.Text)
-			if want.Err == nil {
-				mutations++
-			}
-		}
+		d.step(o)
 	}
-	if mutations > 0 {
+	if d.muts > 0 {
 		t.NonTrivial()
 	}
+}
+
+// c01Probe runs a fixed history on every SUT kind (probes for known / fixed findings).
+func c01Probe(ops ...Op) func(t *T) {
+	return func(t *T) {
+		defer beginTrial(t, false)()
+		for kind := 0; kind < 3; kind++ {
+			d, cleanup := newDiffRun(t, kind, []string{"a", "b", "c"})
+			func() {
+				defer cleanup()
+				for _, o := range ops {
+					d.step(o)
+				}
+			}()
+		}
+	}
+}
+
+const (
+	rdonly = hackpadfs.FlagReadOnly
+	wronly = hackpadfs.FlagWriteOnly
+	rdwr   = hackpadfs.FlagReadWrite
+	creat  = hackpadfs.FlagCreate
+	excl   = hackpadfs.FlagExclusive
+	trunc  = hackpadfs.FlagTruncate
+	appnd  = hackpadfs.FlagAppend
+)
+
+func opWrite(p string) Op    { return Op{Kind: "WriteFullFile", P: p, Perm: 0644, Data: []byte("x")} }
+func opMkdir(p string) Op    { return Op{Kind: "Mkdir", P: p, Perm: 0755} }
+func opRename(p, q string) Op { return Op{Kind: "Rename", P: p, Q: q} }
+
+func init() {
+	RegisterProbe("c01-readfile-dir", c01Probe(opMkdir("a"), Op{Kind: "ReadFile", P: "a"}))
+	RegisterProbe("c01-mkdir-below-file", c01Probe(opWrite("a"), opMkdir("a/b")))
+	RegisterProbe("c01-create-below-file", c01Probe(opWrite("a"), Op{Kind: "OpenFile", P: "a/b", Flag: wronly | creat, Perm: 0644}))
+	RegisterProbe("c01-excl-existing", c01Probe(opWrite("a"), Op{Kind: "OpenFile", P: "a", Flag: wronly | creat | excl, Perm: 0644}))
+	RegisterProbe("c01-rdwr-dir", c01Probe(opMkdir("a"), Op{Kind: "OpenFile", P: "a", Flag: rdwr}))
+	RegisterProbe("c01-removeall-below-file", c01Probe(opWrite("a"), Op{Kind: "RemoveAll", P: "a/b"}))
+	RegisterProbe("c01-rename-missing-parent", c01Probe(opWrite("a"), opRename("a", "b/c")))
+	RegisterProbe("c01-rename-into-self", c01Probe(opMkdir("a"), opRename("a", "a/b")))
+	RegisterProbe("c01-rename-file-onto-dir", c01Probe(opWrite("a"), opMkdir("b"), opRename("a", "b")))
+	RegisterProbe("c01-rename-below-file", c01Probe(opWrite("a"), opWrite("b"), opRename("a", "b/c")))
 }
 
 func init() {
